@@ -100,7 +100,7 @@ structure SystemEnv (env : Env) (p : PCfg) (exe : Str) : Prop where
   apple : AppleEnv env p.macVerStr p.macCpu p.macCompat0 p.is32 p.iosRelease p.iosMultiarch
 
 /-- a generator's result: the tags, or the exception that escapes -/
-def ofTagsResult : Except String (List Str) → M PyVal
+def ofPlatResult : Except String (List Str) → M PyVal
   | .ok l => .ok (.iter (l.map .str))
   | .error e => .error e
 
